@@ -1124,6 +1124,14 @@ func (ex *Exec) bindCaptures(fr *Frame, env *SpecEnv, sc *specScope, reachNow *T
 			}
 		}
 		if rec == nil {
+			// the call did not execute on this path: its arguments and results are arbitrary
+			for name, o := range sc.extra {
+				if strings.HasPrefix(name, cp.Name+"_") {
+					if _, done := env.objs[o]; !done {
+						env.objs[o] = freshVal(o.Type(), "nocall."+name, nil)
+					}
+				}
+			}
 			bind(cp.Name+"_called", False())
 			continue
 		}
